@@ -28,7 +28,7 @@ EXPLANATION = ("Theorems: condensing yields pairwise distinct contents, keeps th
                "under permutation of the ballots as a weight map and idempotent; profile equality holds iff the weight "
                "maps agree; addition adds weight maps; duplicate candidate lists are rejected.")
 
-N_QUICK, N_THOROUGH = 2400, 28800
+N_QUICK, N_THOROUGH = 2400, 86400
 
 
 def gen_ballot(rng, n, pool):
